@@ -216,7 +216,8 @@ class Realised:
         if k == "enum":
             return self.enums[t[1]]
         if k == "lit":
-            return Literal[tuple(leaf_val(v) for v in t[1])]
+            # (literal values are leaves or members of the world's enums)
+            return Literal[tuple(self.val(v) if v[0] == "e" else leaf_val(v) for v in t[1])]
         if k == "list":
             return list[self.ty(t[1])]
         if k == "seq":
